@@ -13,6 +13,9 @@ type expressionStream struct {
 	expression string
 	index      int
 	err        error
+	// removed is the number of bytes rewrites have dropped from expression so far, so that
+	// index+removed is the offset in the expression as the caller wrote it
+	removed int
 }
 
 type token struct {
@@ -99,7 +102,7 @@ func (exp *expressionStream) parseToken() *token {
 		return identifier
 	}
 
-	errmsg := fmt.Sprintf("unexpected '%c' at offset %d", exp.expression[exp.index], exp.index)
+	errmsg := fmt.Sprintf("unexpected '%c' at offset %d", exp.expression[exp.index], exp.index+exp.removed)
 	exp.err = errors.New(errmsg)
 	return nil
 }
@@ -164,7 +167,7 @@ func (exp *expressionStream) readOperator() *token {
 func (exp *expressionStream) readID() string {
 	id := exp.readRegex("[A-Za-z0-9-.]+")
 	if len(id) == 0 {
-		errmsg := fmt.Sprintf("expected id at offset %d", exp.index)
+		errmsg := fmt.Sprintf("expected id at offset %d", exp.index+exp.removed)
 		exp.err = errors.New(errmsg)
 		return ""
 	}
@@ -217,7 +220,7 @@ func (exp *expressionStream) readLicense() *token {
 
 	// license not found in indices, need to reset index since readID advanced it
 	exp.index = index
-	errmsg := fmt.Sprintf("unknown license '%s' at offset %d", license, exp.index)
+	errmsg := fmt.Sprintf("unknown license '%s' at offset %d", license, exp.index+exp.removed)
 	exp.err = errors.New(errmsg)
 	return nil
 }
@@ -263,6 +266,7 @@ func (exp *expressionStream) normalizeLicense(license string) *token {
 				// keep everything after `-or-later`; a `+` directly after it is already covered by the one just added
 				newExpression += strings.TrimPrefix(exp.expression[exp.index:], "+")
 			}
+			exp.removed += len(exp.expression) - len(newExpression)
 			exp.expression = newExpression
 			// update index to remove `-or-later`; now pointing at the `+` operator
 			exp.index -= len("-or-later")
